@@ -898,7 +898,12 @@ impl PreExp {
             Self::BinaryOperation(_, _, _) | Self::UnaryOperation(_, _)
         )
     }
-    fn to_string_with_precedence(&self, previous_precedence: u8) -> String {
+    /// Renders `self` as the left or right operand of `parent`, adding the
+    /// parentheses the parser needs to rebuild the same grouping: always around
+    /// a looser operator, and around an operator of the same level when the
+    /// associativity would otherwise regroup it (`a - (b - c)`, `a / (b * c)`,
+    /// `(a implies b) implies c`, `(a implies b) iff c`).
+    fn to_string_as_operand(&self, parent: BinOp, is_left_operand: bool) -> String {
         match self {
             Self::BinaryOperation(op, lhs, rhs) => {
                 //TODO add implied multiplication like 2x 2(x + y) etc...
@@ -908,9 +913,16 @@ impl PreExp {
                        (number | parenthesis) ~ variable
                    }
                 */
-                let lhs_str = lhs.to_string_with_precedence(op.precedence());
-                let rhs_str = rhs.to_string_with_precedence(op.precedence());
-                if op.precedence() < previous_precedence {
+                let lhs_str = lhs.to_string_as_operand(**op, true);
+                let rhs_str = rhs.to_string_as_operand(**op, false);
+                let needs_parenthesis = if op.precedence() != parent.precedence() {
+                    op.precedence() < parent.precedence()
+                } else if is_left_operand {
+                    !op.is_left_associative()
+                } else {
+                    parent.is_left_associative()
+                };
+                if needs_parenthesis {
                     format!("({} {} {})", lhs_str, **op, rhs_str)
                 } else {
                     format!("{} {} {}", lhs_str, **op, rhs_str)
@@ -979,8 +991,8 @@ impl fmt::Display for PreExp {
             Self::BlockFunction(f) => f.to_string(),
             Self::BlockScopedFunction(f) => f.to_string(),
             Self::BinaryOperation(op, lhs, rhs) => {
-                let rhs = rhs.to_string_with_precedence(op.precedence());
-                let lhs = lhs.to_string_with_precedence(op.precedence());
+                let rhs = rhs.to_string_as_operand(**op, false);
+                let lhs = lhs.to_string_as_operand(**op, true);
                 format!("{} {} {}", lhs, **op, rhs)
             }
             Self::CompoundVariable(c) => c.to_string(),
